@@ -31,6 +31,24 @@ def run(prop, tier):
         if not r.ok:
             raise vlib.Undecided('Hasher buffer model rate %d: %s %s' % (rate, r.violated, r.error))
         ck.add_states(r, 'sponge buffer, rate %d, every write length 0..%d, 3 operations' % (rate, 2 * rate + 1))
+    # the write loop one iteration per step (SpongeLoop.tla): TLC for small and real rates with every length, agreement with WriteLoop above;
+    # TLAPS for every rate >= 1, every length, any number of writes, with termination of the loop (SpongeLoopProof.tla)
+    for rate, maxlen, writes in [(5, 17, 3), (8, 25, 3), (136, 2 * 136 + 1, 2), (104, 2 * 104 + 1, 2)]:
+        r = vlib.tlc(SPEC, 'SpongeLoopMC', vlib.cfg({'Rate': rate, 'MaxLen': maxlen, 'MaxWrites': writes}, spec='MCSpec',
+                     invariants=['LoopInv', 'LoopIsWriteLoop', 'ClosedForm'], properties=['Terminates']), name='sloop', timeout=1200)
+        if not r.ok:
+            raise vlib.Undecided('SpongeLoop rate %d: %s %s' % (rate, r.violated, r.error))
+        ck.add_states(r, 'sponge write loop step by step, rate %d, every write length 0..%d, %d writes' % (rate, maxlen, writes))
+    import time
+    t0 = time.time()
+    proved, total, out = vlib.tlapm(SPEC, 'SpongeLoopProof', timeout=900, name='sloopproof')
+    ck.cov['tlaps_proof'] = {'module': 'SpongeLoopProof', 'theorems': ['InitInv', 'Consecution', 'Safety (Spec => []LoopInv)', 'Progress', 'PaddingFits'],
+                             'for': 'every rate >= 1, every write length, any number of writes', 'obligations_proved': proved, 'obligations': total,
+                             'wall_s': round(time.time() - t0, 1)}
+    if proved >= 0 and proved < total:
+        raise vlib.Undecided('TLAPS: %d of %d obligations of SpongeLoopProof fail: the proof or the model is wrong\n%s' % (total - proved, total, out[-1500:]))
+    if proved < 0:
+        ck.notes.append('tlapm did not run to completion (supplementary unbounded argument, not a verdict on the code)')
     for cls, rate, o in [('sponge', 136, ops), ('sponge', 104, ops - 1), ('sha2', 64, ops - 1), ('kmac', 168, ops - 1)]:
         r = vlib.tlc(SPEC, 'Hasher', vlib.cfg({'Rate': rate, 'Class': cls, 'MaxOps': o, 'Lens': lens_for(rate), 'Record': True},
                                                invariants=INV + ['Emit']), name='hhist', timeout=2400)
